@@ -247,3 +247,115 @@ class HostMap:
 
     def __exit__(self, *a):
         socket.getaddrinfo = self._orig
+
+
+class SpeakFirstPeer:
+    """A TLS server that does not wait for the request: its last handshake flight (TLS 1.2: ChangeCipherSpec +
+    Finished), a complete response and close_notify leave in ONE segment, then it reads whatever still comes.
+    The client's transport can be closing before the client code has looked at the certificate.
+    log: one record per connection {"received": plaintext bytes the client sent after the handshake}."""
+
+    def __init__(self, ident, response=b"20 text/gemini\r\nspoken first\n", tls12=True, name="speak-first"):
+        import socket as _socket
+
+        self.ident = ident
+        self.response = response
+        self.tls12 = tls12
+        self.name = name
+        self.log = []
+        self.errors = []
+        self.sock = _socket.socket()
+        self.sock.bind(("127.0.0.1", 0))
+        self.sock.listen(16)
+        self.port = self.sock.getsockname()[1]
+        self._busy = 0
+        self._closed = False
+        self._t = threading.Thread(target=self._accept_loop, daemon=True)
+        self._t.start()
+
+    def swap_cert(self, ident):
+        self.ident = ident
+
+    def _accept_loop(self):
+        while not self._closed:
+            try:
+                conn, _ = self.sock.accept()
+            except OSError:
+                return
+            self._busy += 1
+            threading.Thread(target=self._serve, args=(conn,), daemon=True).start()
+
+    def _serve(self, conn):
+        rec = {"received": b"", "handshake_ok": False}
+        self.log.append(rec)
+        try:
+            conn.settimeout(6)
+            c = ssl.SSLContext(ssl.PROTOCOL_TLS_SERVER)
+            c.load_cert_chain(self.ident.certfile, self.ident.keyfile)
+            if self.tls12:
+                c.maximum_version = ssl.TLSVersion.TLSv1_2
+            inc, out = ssl.MemoryBIO(), ssl.MemoryBIO()
+            obj = c.wrap_bio(inc, out, server_side=True)
+            while True:
+                try:
+                    obj.do_handshake()
+                    break
+                except ssl.SSLWantReadError:
+                    data = out.read()
+                    if data:
+                        conn.sendall(data)
+                    chunk = conn.recv(65536)
+                    if not chunk:
+                        return
+                    inc.write(chunk)
+            rec["handshake_ok"] = True
+            # `out` still holds our last flight: the response and close_notify go with it
+            obj.write(self.response)
+            try:
+                obj.unwrap()
+            except (ssl.SSLWantReadError, ssl.SSLError):
+                pass
+            conn.sendall(out.read())
+            try:
+                while True:
+                    chunk = conn.recv(65536)
+                    if not chunk:
+                        break
+                    inc.write(chunk)
+                    while True:
+                        try:
+                            d = obj.read(65536)
+                        except (ssl.SSLWantReadError, ssl.SSLError):
+                            break
+                        if not d:
+                            break
+                        rec["received"] += d
+            except OSError:
+                pass
+        except Exception as e:  # noqa: BLE001
+            self.errors.append(repr(e))
+        finally:
+            try:
+                conn.close()
+            except OSError:
+                pass
+            self._busy -= 1
+
+    def wait_idle(self, timeout=5.0):
+        t0 = time.monotonic()
+        while self._busy > 0 and time.monotonic() - t0 < timeout:
+            time.sleep(0.01)
+
+    def close(self):
+        self._closed = True
+        try:
+            self.sock.close()
+        except OSError:
+            pass
+
+    def __enter__(self):
+        return self
+
+    def __exit__(self, *a):
+        self.wait_idle(2)
+        self.close()
